@@ -4,8 +4,8 @@
    lists in Model/Alloc.v.  Loop: Proofs/C06_Loop.v about the state machine Model/Mlmc.v shared with C05.
    Tree: fix-mc (e8b4517: bias tolerance sqrt(theta)*rmse; d6e63ca: new level starts with Nl = 0). *)
 From Coq Require Import Reals List ZArith QArith Bool.
-From RV Require Import Base.RB Base.RCeilMC Gen.GenC06Criteria Gen.GenC06Regress Model.Alloc Model.Regress Model.McStats Model.Mlmc
-                       Proofs.C06_Alloc Proofs.C06_Loop Proofs.C06_Compose Proofs.C06_Regress Proofs.C06_RealAlloc.
+From RV Require Import Base.RB Base.RCeilMC Gen.GenC06Criteria Gen.GenC06Regress Model.Alloc Model.Regress Model.McStats Model.Mlmc Model.MlmcTied
+                       Proofs.C06_Alloc Proofs.C06_Loop Proofs.C06_Compose Proofs.C06_Regress Proofs.C06_RealAlloc Proofs.C06_Tied.
 Import ListNotations.
 
 (* for all variance vectors V >= 0, cost vectors C > 0 (same length) and all rmse > 0, the ceil'ed Giles
@@ -133,7 +133,10 @@ Theorem C06_regressed_rate_guard : forall l,
   (sqrt 2 <= Rpower 2 (log2_regression l log2_regression_default_max_val))%R
   /\ (1 < Rpower 2 (log2_regression l log2_regression_default_max_val))%R.
 Proof. exact regressed_rate_guard. Qed.
-(* C06_bias_plus_variance with the weak rate the engine regresses (configured alpha = None): no hypothesis on alpha is left *)
+(* C06_bias_plus_variance with the weak rate the engine regresses (configured alpha = None).  Wave 7 (audit-4 B5): the generated
+   log2_regression now has numpy's nan path (a zero level mean at a level >= 1 -> rate = the clamp 1/2, not a slope through
+   Coq's ln 0 = 0), so `0 <= m` IS the right hypothesis: alpha is what Python computes for every non-negative ml, zeros included
+   (Example C06_zero_level_mean_takes_nan_path: the audit's witness, where the bias test FAILS in Python and in the model) *)
 Theorem C06_bias_plus_variance_regressed : forall prev ml rmse, (0 <= rmse)%R -> Forall (fun m => 0 <= m)%R ml ->
   let alpha := alpha_of_pass None prev ml in
   criteria_giles alpha ml rmse = true ->
@@ -155,9 +158,46 @@ Theorem C06_error_exactly_when_not_representable : forall rmse v c T, (0 <= T)%R
                     /\ (IZR z - 1 < giles_optimal rmse v c T <= IZR z)%R).
 Proof. exact core_error_iff. Qed.
 
-(* termination with the REAL allocation: from some answer k0 on the oracle is the generated Giles allocation of estimates with
-   sqrt(V_l / C'_l) <= Q and sum sqrt(V C) <= Smax (any lengths, zero costs allowed, answers before k0 arbitrary) *)
+(* termination with the REAL callbacks, TIED TO THE STATE (wave 7, audit-4 B4).  `tied_run ... fuel L0 N0` (Model/MlmcTied.v) says,
+   for every callback call the run makes within `fuel` passes: the allocation answer IS giles_alloc rmse V C where V, C are the
+   state's own res_vl / res_cl (one entry per level, after the generated work-around; for an added level the generated
+   extrapolation with the rates regressed in that pass), every level has samples when its statistics are read, the convergence
+   answer IS the generated criteria_giles of the state's level means and regressed / configured alpha, and the estimates satisfy
+   bounded_estimates Qb Smax (sqrt(V_l / C'_l) <= Qb, sum sqrt(V C) <= Smax).  Nothing is existential: an oracle answering the
+   empty vector is NOT tied (C06_tied_answer_has_one_entry_per_level).  Still a hypothesis on the run: bounded estimates are not
+   implied by the code (unconditional termination is false). *)
 Theorem C06_termination_real_allocation :
+  forall sample cost alloc conv garbage df notional level_max L0 N0 rmse cfg_alpha cfg_beta cfg_gamma Qb Smax,
+    (0 < rmse)%R -> (L0 <= level_max)%nat ->
+    (forall fuel, tied_run sample cost alloc conv df notional level_max rmse cfg_alpha cfg_beta cfg_gamma
+                           (bounded_estimates Qb Smax) garbage fuel L0 N0) ->
+    exists fuel, price_run sample cost alloc conv garbage df notional level_max 0 fuel L0 N0 <> OutOfFuel.
+Proof. exact termination_tied_full. Qed.
+Theorem C06_tied_answer_has_one_entry_per_level :
+  forall sample cost alloc conv garbage df notional level_max L0 N0 rmse cfg_alpha cfg_beta cfg_gamma Qb Smax fuel, (0 < N0)%nat ->
+    tied_run sample cost alloc conv df notional level_max rmse cfg_alpha cfg_beta cfg_gamma (bounded_estimates Qb Smax) garbage (S fuel) L0 N0 ->
+    length (alloc 0%nat) = S L0.
+Proof. exact tied_answer_length_full. Qed.
+(* what the definitions GENERATED from the loop body (symbolic execution of Engine.price in source order) are, by construction
+   (`_spec`: reflexivity; it FAILS when the source re-orders the work-around and the regressions or changes an argument):
+   the work-around uses the PREVIOUS pass's rates, the regressions read the FLOORED arrays, the allocation gets (floored vl, raw cl),
+   the bias test (regressed alpha, floored ml), an added level is extrapolated with the rates regressed in THIS pass *)
+Theorem C06_generated_loop_body_spec : forall ca cb cg a b g ml vl cl r,
+  let ml' := workaround (Rpower 2 a) ml in let vl' := workaround (Rpower 2 b) vl in
+  pass_alloc_V ca cb cg a b g ml vl cl = vl' /\ pass_alloc_C ca cb cg a b g ml vl cl = cl
+  /\ pass_bias_alpha ca cb cg a b g ml vl cl = alpha_of_pass ca a ml' /\ pass_bias_ml ca cb cg a b g ml vl cl = ml'
+  /\ new_level_alloc_V ca cb cg a b g ml vl cl = (vl' ++ [last vl' 0 / Rpower 2 (beta_of_pass cb b vl')])%R
+  /\ new_level_alloc_C ca cb cg a b g ml vl cl = (cl ++ [last cl 0 * Rpower 2 (gamma_of_pass cg g cl)])%R
+  /\ pass_next_alpha ca cb cg a b g ml vl cl = alpha_of_pass ca a ml' /\ pass_next_beta ca cb cg a b g ml vl cl = beta_of_pass cb b vl'
+  /\ pass_next_gamma ca cb cg a b g ml vl cl = gamma_of_pass cg g cl
+  /\ (alpha_initial None = 0 /\ beta_initial None = 0 /\ gamma_initial None = 0                (* `rate = 0 if rate_0 is None else rate_0` *)
+      /\ alpha_initial (Some r) = r /\ beta_initial (Some r) = r /\ gamma_initial (Some r) = r)%R.
+Proof. exact generated_loop_body_spec. Qed.
+
+(* BOUNDEDNESS LEMMAS (relabelled, audit-4 B4): answers that are the Giles allocation of SOME bounded vectors are bounded, hence
+   the bounded-demand theorem applies.  V, C are existential and NOT the state's estimates (the empty answer qualifies): these two
+   say nothing about the real engine beyond C06_termination_partial; the tied statement above is the one about the state. *)
+Theorem C06_termination_bounded_giles_answers_partial :
   forall sample cost alloc conv garbage df notional level_max L0 N0 rmse Q Smax k0,
     (0 < rmse)%R ->
     (forall k, (k0 <= k)%nat -> exists V C, map IZR (alloc k) = giles_alloc rmse V C
@@ -165,8 +205,7 @@ Theorem C06_termination_real_allocation :
     (L0 <= level_max)%nat ->
     exists fuel, price_run sample cost alloc conv garbage df notional level_max 0 fuel L0 N0 <> OutOfFuel.
 Proof. exact termination_bounded_estimates. Qed.
-(* in particular when the per-level estimates are fixed from answer k0 on (answer k uses the first n_k levels) *)
-Theorem C06_termination_fixed_estimates :
+Theorem C06_termination_fixed_vectors_partial :
   forall sample cost alloc conv garbage df notional level_max L0 N0 rmse Vfix Cfix k0,
     (0 < rmse)%R -> length Vfix = length Cfix ->
     (forall k, (k0 <= k)%nat -> exists n, map IZR (alloc k) = giles_alloc rmse (firstn n Vfix) (firstn n Cfix)) ->
@@ -178,7 +217,7 @@ Proof. exact termination_fixed_estimates. Qed.
 Example C06_regressed_bias_test_passes :
   alpha_of_pass None 0 ex_ml = 2%R /\ Forall (fun m => 0 <= m)%R ex_ml /\ criteria_giles (alpha_of_pass None 0 ex_ml) ex_ml 1 = true.
 Proof. exact regressed_ex. Qed.
-Example C06_single_level_rate_is_half_log : forall m0 m1,
+Example C06_single_level_rate_is_half_log : forall m0 m1, (0 < m1)%R ->
   log2_regression [m0; m1] log2_regression_default_max_val = Rmax (1 / 2) (- (log2R m1 / 2)).
 Proof. exact single_level_rate. Qed.
 Example C06_real_allocation_oracle_exists :
@@ -188,6 +227,17 @@ Example C06_real_allocation_oracle_exists :
 Proof. exact real_allocation_oracle_ex. Qed.
 Example C06_error_branch_met : giles_alloc_core (1 / 2 ^ 40) 1 1 1 = (-1)%R.
 Proof. exact core_error_ex. Qed.
+(* wave 7: the nan path (audit-4 B5 witness ml = [3, 0, 1/4, 1/8], rmse = the double 0.2): rate = clamp, bias test fails *)
+Example C06_zero_level_mean_takes_nan_path : forall prev,
+  alpha_of_pass None prev nan_ml = (1 / 2)%R /\ Forall (fun m => 0 <= m)%R nan_ml
+  /\ criteria_giles (alpha_of_pass None prev nan_ml) nan_ml (3602879701896397 / 18014398509481984) = false.
+Proof. exact nan_path_ex. Qed.
+(* wave 7: the hypothesis of C06_termination_real_allocation is satisfiable by a run that needs two passes (oracles = the real
+   callbacks on the state: one level, variance 1, unit cost, rmse 1/2, all rates regressed) -- and that run returns with N = [6] *)
+Example C06_tied_run_exists :
+  (forall fuel, tied_run ex_sample ex_cost ex_alloc ex_conv 1 1 0 (1 / 2) None None None (bounded_estimates 1 1) ex_garbage fuel 0 2)
+  /\ exists s, price_run ex_sample ex_cost ex_alloc ex_conv ex_garbage 1 1 0 0 2 0 2 = Converged s /\ map lN (levels s) = [6%nat] /\ nalloc s = 2%nat.
+Proof. exact (conj tied_run_ex tied_run_ex_returns). Qed.
 
 (* behaviour before the repair of F-C06-3: the loop entered above the maximum (price_run = the loop without the entry check) *)
 Example C06_level_above_maximum_before_repair :
@@ -222,10 +272,15 @@ Print Assumptions C06_bias_plus_variance_regressed.
 Print Assumptions C06_workaround_guarantee.
 Print Assumptions C06_error_exactly_when_not_representable.
 Print Assumptions C06_termination_real_allocation.
-Print Assumptions C06_termination_fixed_estimates.
+Print Assumptions C06_tied_answer_has_one_entry_per_level.
+Print Assumptions C06_generated_loop_body_spec.
+Print Assumptions C06_termination_bounded_giles_answers_partial.
+Print Assumptions C06_termination_fixed_vectors_partial.
 Print Assumptions C06_regressed_bias_test_passes.
 Print Assumptions C06_single_level_rate_is_half_log.
 Print Assumptions C06_real_allocation_oracle_exists.
 Print Assumptions C06_error_branch_met.
+Print Assumptions C06_zero_level_mean_takes_nan_path.
+Print Assumptions C06_tied_run_exists.
 Print Assumptions C06_level_above_maximum_before_repair.
 Print Assumptions C06_bias_plus_variance_before_repair.
